@@ -160,6 +160,17 @@ CLAIMED = {
         'technique': 'contract-based deductive verification (Verus) of extracted real code over a ghost heap model of the RefCell node graph',
         'design_ref': 'DESIGN.md 8.23',
     },
+    'C04': {
+        'text': 'PARTIAL.  Deductive proof (Verus) on the verbatim bodies of format_for_print_pred and next_solution_print (unit print) and of next_solution_bip (unit solver): '
+                'the text of print is its first argument with the `%s` markers replaced left to right by the later arguments (left-over arguments follow one another - concatenation when there is no marker -, left-over markers vanish), '
+                'each argument shown with its bound value; a print goal with arguments is exactly one output event; a print / print_list / nl node writes only on its first request, at most once, and a node that has reported "no more" writes nothing (C05). '
+                'The trace sentence - the output of a whole search is what the reference depth-first search writes, in execution order - is a whole-history statement and is checked BOUNDED only: '
+                '2000 random programs per seed against a reference interpreter (c04_prog).',
+        'note': 'Trusted: the cutting specification of str::split (T3, spec/print.rs: at least one piece; uninterpreted otherwise), Display of a term uninterpreted, heap model (T8) for the output events, R10 wrappers for String += and ToString, R16 (print!). '
+                'ASSUMED: acyclic bindings at next_solution_print (C08 invariant, not carried through the solver unit); print_list is not under contract.',
+        'technique': 'contract-based deductive verification (Verus) of extracted real code (formatting and once-per-execution clauses) + bounded comparison of output traces with a reference interpreter',
+        'design_ref': 'DESIGN.md 8.26',
+    },
     'C19': {
         'text': 'PARTIAL.  Deductive proof (Verus) on the verbatim body of token_tree_to_goal (unit tokentree, together with the grouping functions that build its input): the goal built for a conjunction or a disjunction has the kind of the branch token '
                 'and exactly one operand per child, and the children of such a branch are operands only - so no goal of a rule body can be dropped or merged on the way from the token tree to the goal. '
@@ -204,7 +215,7 @@ NOT_APPLICABLE = {
     'C01': 'whole-search equivalence with SLD resolution over an Rc<RefCell<SolutionNode>> graph mutated through borrow_mut and raw pointers: no contract of either installed verifier can be stated on next_solution; leaf components are proved under other properties but do not decide C01',
     'C02': "the cut's effect lives in next_solution's clause loop and a RefCell::as_ptr raw-pointer walk; Verus rejects both constructs, Kani cannot build a SolutionNode within budget",
     'C03': 'Not branch of next_solution (RefCell node graph), same obstacle as C01/C02',
-    'C04': 'solver-trace property (once per execution, in search order); the formatting sentence alone is built on str::split/collect (outside Verus) and would not decide C04',
+
     'C05': 'inductive invariant over the dynamic node graph behind RefCell across repeated calls (history property)',
     'C06': 'not yet built in this session (planned: Verus contract on unify)',
     'C07': 'two-run relational property needing MGU-uniqueness theory over a functional model of unify; a contract on one call cannot state it; bounded Kani stand-in measured out of budget',
